@@ -200,6 +200,7 @@ def run(prog: Program, rep: Report, tier: str):
     rep.rule("R05.2", "applied member routines are context lookups by type argument / hint", floor=9)
     rep.rule("R05.3", "each slot meets its own component", floor=9)
     rep.rule("R05.4", "sibling agreement of the two api modules", floor=9)
+    rep.rule("R05.5", "tolerant field-routine lookups see through forward references (TypeContext rules, shared with C16)", floor=5)
     facts = {}
     for d in ("marshal", "unmarshal"):
         ff = factory_facts(prog, d)
@@ -207,3 +208,9 @@ def run(prog: Program, rep: Report, tier: str):
         r05_2_3(prog, rep, d)
         facts[d] = dispatch_facts(prog, d)
     r05_4(prog, rep, facts)
+    from ..report import Report as _R, absorb
+    from . import c16
+
+    sub = _R("C05", tier)
+    c16.run(prog, sub, tier)
+    absorb(rep, sub, {"R16.1": "R05.5", "R16.2": "R05.5", "R16.3": "R05.5"})
